@@ -468,3 +468,81 @@ def run(ctx) -> None:  # noqa: F811
     n_is = isinst.check(ctx, ctx.repo, funcs)
     ctx.require(n_is >= 8, f"R-ISINSTANCE examined only {n_is} isinstance tests")
     _inner_run_c35_sweep(ctx)
+
+
+# ---- slicing a linear axis keeps `coordinates = offset + i x sampling` for the selected items (rule shared with C29)
+_inner_run_c35_r7 = run
+
+
+def run(ctx) -> None:  # noqa: F811
+    from . import c29
+
+    ctx.rule("R-LINEARITEM", "(shared with C29; the rule lives in c29) for a slice, LinearAxis.__getitem__ returns offset' = "
+             "offset + start x sampling and sampling' = sampling x step (term normal forms with the slice's own start / "
+             "step, None read as 0 / 1): item k of the selection then has coordinate offset' + k x sampling' = offset + "
+             "(start + k x step) x sampling, the coordinate the original axis gives that item")
+    pending = None
+    try:
+        c29._linear_axis_items(ctx)
+    except AnalysisError as e:
+        pending = e
+    _inner_run_c35_r7(ctx)
+    if pending is not None:
+        raise pending
+
+
+# ---- value-returning methods of axis metadata do not modify the receiver (mutation sweep: `self.copy()` dropped)
+_inner_run_c35_r7b = run
+
+
+def _pure_axis_methods(ctx) -> int:
+    from ..cfg import DataFlow
+
+    mod = ctx.repo.module(MOD)
+    n = 0
+    for c in mod.classes.values():
+        for defs in c.methods.values():
+            for f in defs:
+                if f.name in ("__init__", "__post_init__", "__setattr__", "__setstate__") or getattr(f, "is_setter", False):
+                    continue
+                if not f.positional_params or f.positional_params[0] != "self":
+                    continue
+                returns_value = any(isinstance(r, ast.Return) and r.value is not None and not (
+                    isinstance(r.value, ast.Constant) and r.value.value is None) for r in walk_no_nested(f.node))
+                stores = [st for st in walk_no_nested(f.node) if isinstance(st, (ast.Assign, ast.AugAssign, ast.AnnAssign))
+                          and any(isinstance(t, ast.Attribute) for t in (st.targets if isinstance(st, ast.Assign) else [st.target]))]
+                if not returns_value or not stores:
+                    continue
+                df = DataFlow(f.node)
+
+                def is_self(e, at, depth=0):
+                    if isinstance(e, ast.Name) and e.id == "self":
+                        return True
+                    if isinstance(e, ast.Name) and depth < 6:
+                        rd = df.reaching(at, e.id)
+                        return bool(rd) and any(d.kind == "assign" and d.value is not None and is_self(d.value, d.node, depth + 1)
+                                                for d in rd)
+                    return False
+
+                for st in stores:
+                    at = df.cfg.node_of(st).idx
+                    for t in (st.targets if isinstance(st, ast.Assign) else [st.target]):
+                        if not isinstance(t, ast.Attribute):
+                            continue
+                        n += 1
+                        ctx.check(not is_self(t.value, at), "R-PUREAXIS", f"{f.qualname}:{t.attr}", f.loc(st),
+                                  f"`{norm_text(t)}` is written on a new object",
+                                  f"`{norm_text(st)[:70]}` writes the receiver itself (`{norm_text(t.value)}` can be self): "
+                                  f"{f.short} returns an axis and at the same time changes the axis it was called on, so "
+                                  "the original object no longer describes its own values", key_detail="self-store")
+    return n
+
+
+def run(ctx) -> None:  # noqa: F811
+    ctx.rule("R-PUREAXIS", "a method of an axis-metadata class that returns a value (slicing, unit conversion, "
+             "concatenation, conversion to another axis kind) writes attributes only on a new object: the target of every "
+             "attribute store in such a method does not alias `self` (reaching definitions).  Otherwise taking a slice or "
+             "converting units changes the axis it was taken from")
+    n = _pure_axis_methods(ctx)
+    ctx.require(n >= 3, f"R-PUREAXIS examined only {n} attribute stores")
+    _inner_run_c35_r7b(ctx)
